@@ -52,6 +52,7 @@ def default_call(name, args):
 
 NONE = ("variant", "None", [], 0)
 _SYMVALS = []
+_UBOX = {}      # `vec![a, b]`: the uninitialised box the array is written into, then handed to the Vec
 
 
 def some(x):
@@ -224,6 +225,8 @@ def run(body, start_bb, env, call=None, max_steps=400, prog=None, depth=0, inlin
         for pr in pl["p"]:
             if pr == "*":
                 continue  # references are transparent
+            if isinstance(v, tuple) and v[:1] == ("ubox",):
+                continue  # pointer plumbing of `vec![..]` (Box -> Unique -> NonNull -> *mut)
             if isinstance(pr, dict) and "dc" in pr:
                 if not (isinstance(v, tuple) and v[0] == "variant" and v[1] == pr.get("n")):
                     raise Unrecognised("downcast of %r to %s" % (v, pr.get("n")))
@@ -332,7 +335,9 @@ def run(body, start_bb, env, call=None, max_steps=400, prog=None, depth=0, inlin
                         mutrefs[lhs["l"]] = mutrefs[pl_["l"]]
             elif k == "cast":
                 v = operand(rv["op"])
-                if rv["kind"] not in ("IntToInt",) and not rv["kind"].startswith("PointerCoercion(Unsize"):
+                if isinstance(v, tuple) and v[:1] == ("ubox",):
+                    pass
+                elif rv["kind"] not in ("IntToInt",) and not rv["kind"].startswith("PointerCoercion(Unsize"):
                     raise Unrecognised("cast %s" % rv["kind"])
             elif k == "binop":
                 a, b = operand(rv["a"]), operand(rv["b"])
@@ -396,6 +401,9 @@ def run(body, start_bb, env, call=None, max_steps=400, prog=None, depth=0, inlin
                 v = ("closure", rv["closure"], [operand(o) for o in rv["ops"]]) if prog is not None else Sym("closure:" + rv["closure"])
             else:
                 raise Unrecognised("rvalue %s" % k)
+            if lhs["p"] and isinstance(env.get(lhs["l"]), tuple) and env[lhs["l"]][:1] == ("ubox",) and lhs["p"][0] == "*":
+                _UBOX[env[lhs["l"]][1]] = v       # the array literal written into the box
+                continue
             if lhs["p"]:
                 env[lhs["l"]] = _store(env.get(lhs["l"]), lhs["p"], v)
                 continue
@@ -446,7 +454,15 @@ def run(body, start_bb, env, call=None, max_steps=400, prog=None, depth=0, inlin
                         else:
                             env[tgt_] = ("chain", old_, add_)
                         seq_updated = True
-            if call is not None:
+            if name.split("::")[-1] in ("new_uninit", "box_new_uninit") and "alloc::boxed" in name and not args:
+                v = ("ubox", len(_UBOX))
+                _UBOX[v[1]] = None
+            elif name.split("::")[-1] in ("box_assume_init_into_vec_unsafe", "into_vec") and len(args) == 1 and isinstance(args[0], tuple) and args[0][:1] == ("ubox",):
+                c_ = _UBOX.get(args[0][1])
+                if not (isinstance(c_, tuple) and c_[:1] == ("array",)):
+                    raise Unrecognised("vec! plumbing: the box was never filled")
+                v = ("vec", tuple(c_[1]))
+            if v is None and call is not None:
                 v = call(name, args, t)
             if v is None and prog is not None:
                 v = option_builtin(prog, name, args, call, depth, inline)
